@@ -8,7 +8,150 @@ COMMON = [
     "verdict is 'held on the executions observed', not a proof",
 ]
 
+T_MODEL = "runtime monitoring: reference-model oracle over executions of the real code (enumerated + generated workload)"
+
 INFO = {
+    "C01": {
+        "rule": "every public operation (class values and allows on both classes and a user class, the eight context rules "
+                "and the registry at positions 0..len+2 and extreme usize values, all five Rules methods and "
+                "prepare/enforce/compare of the four profiles through Profile and PrecisFastInvocation and all argument "
+                "forms, stabilize, Codepoints comparisons, Display of errors) is called under catch_unwind on: every u32 in "
+                "0..=0x10FFFF plus boundary/random values above; ALL strings over a 9-symbol 1-4 byte alphabet up to length "
+                "4 (quick) / 5 (thorough); all strings over 7 space/multi-byte symbols up to length 6 / 8 through the enforce "
+                "paths; random hostile strings and a few of 10^4-10^5 characters. Built with overflow checks and debug "
+                "assertions on (thorough: also plain release, and the miriops program under Miri). Oracle: no panic payload, "
+                "no death on a signal. Non-trivial = distinct inputs containing a multi-byte character or a non-scalar / "
+                "out-of-range argument.",
+        "floor_quick": 50000,
+        "technique": "runtime monitoring: catch_unwind panic monitor over enumerated and hostile inputs; Miri (UB interpreter) in thorough",
+        "assumptions": COMMON + ["a panic is observed through catch_unwind with panic=unwind; aborts are seen as the child dying on a signal"],
+    },
+    "C02": {
+        "rule": "StringClass::allows on IdentifierClass, FreeformClass and user-supplied table classes (7 constant + random "
+                "assignments of the 7 derived values to 12 symbols with and without a registered rule) is compared with a "
+                "per-code-point reference (values from the class under test, context decided by the independent RFC 5892 "
+                "model, position counted in code points, first offender wins). Labels: ALL labels up to length 4 (quick) / 5 "
+                "(thorough) over a 22-symbol alphabet holding every derived value, every contextual code point, enabling and "
+                "disabling neighbours and 1-4 byte characters; all labels up to length 3 over the 12 symbols per table class; "
+                "constructive valid contextual labels, single edits, random labels with the first offender at every "
+                "position. At a label edge, where RFC 5892 is undefined, BadCodepoint and Undefined are both accepted. "
+                "Non-trivial = distinct (class, label) whose verdict is decided by a non-PVALID code point.",
+        "floor_quick": 100000,
+        "technique": T_MODEL,
+        "assumptions": COMMON + ["derived property values are taken from the class under test (C14 owns them)"],
+    },
+    "C03": {
+        "rule": "each of the eight rule functions (and the rule returned by the registry) is compared with an independent "
+                "three-valued implementation of RFC 5892 A.1-A.9 over the 6.3.0 virama/joining-type/script data: EVERY Unicode "
+                "scalar value as the inspected neighbour in 17 roles; ALL arrangements of 8 joining-type symbols up to length "
+                "6 (quick) / 7, and 7 symbols up to length 8 (thorough), at every position inside and outside the label; all "
+                "eight rules at every position of constructive, mutated and random labels; registry membership for every "
+                "value 0..=0x10FFFF against the IANA registry. True/false are strict; where a neighbour lies outside the "
+                "label, false and undefined are both accepted (the property permits undefined only there). Non-trivial = "
+                "distinct (rule, label, position) with the rule's own code point at the position.",
+        "floor_quick": 1000000,
+        "technique": T_MODEL,
+        "assumptions": COMMON,
+    },
+    "C04": {
+        "rule": "prepare and enforce of UsernameCaseMapped / UsernameCasePreserved are compared with a reference pipeline "
+                "(width map from UnicodeData 16.0.0, non-empty, reference IdentifierClass acceptance, per-character lowercase "
+                "for the mapped profile, NFC called directly, non-empty, then the library's own directionality step, which C09 "
+                "owns) on: all strings over the 9-symbol alphabet up to length 4 / 6; generated names and their variants "
+                "(fullwidth capitals, halfwidth katakana + voiced marks, upper-case base + mark where lowercase and NFC do not "
+                "commute, contextual characters, RTL letters/digits with LTR tails), hostile strings. Also: every prepare "
+                "failure is enforce's result. Non-trivial = distinct accepted (profile, input) on which at least two of "
+                "{width, case, NFC, RTL check} were effective.",
+        "floor_quick": 20000,
+        "technique": T_MODEL,
+        "assumptions": COMMON + ["the directionality step inside the pipeline reference is the library's (open known finding F4 is reported once, under C09)"],
+    },
+    "C05": {
+        "rule": "OpaqueString prepare/enforce vs reference (non-empty, reference FreeformClass acceptance; every Zs other than "
+                "U+0020 from UnicodeData 16.0.0 mapped to U+0020; NFC direct; non-empty): all strings up to length 5 / 6 over "
+                "{SP, Zs, a, E9, 20AC, 1F600, FF21, A} for a rotating subset (quick) / all (thorough) of the 16 non-ASCII Zs, "
+                "every Zs in 8 frames, every Unicode scalar value in 3 frames, every canonical decomposition of UnicodeData "
+                "16.0.0 in decomposed form, random passwords. Non-trivial = distinct accepted inputs changed by space mapping "
+                "or NFC, or containing compatibility / upper-case characters that must be preserved.",
+        "floor_quick": 50000,
+        "technique": T_MODEL,
+        "assumptions": COMMON,
+    },
+    "C06": {
+        "rule": "Nickname prepare/enforce vs a reference loop (up to 4 applications of: non-empty, FreeformClass acceptance, "
+                "split on Zs / join with one space, NFKC direct, non-empty) and the invariant that every accepted result is a "
+                "fixed point of one application: all pairs (and 1/7 resp. all triples) over the 52 characters whose NFKC "
+                "introduces a space plus marks/spaces/multi-byte letters, all strings up to length 4 / 6 over 9 "
+                "representatives, random nicknames. The histogram 'accepted-after-k-applications' shows how deep the "
+                "iteration was driven. Non-trivial = distinct inputs needing >= 2 applications (accepted or rejected later).",
+        "floor_quick": 20000,
+        "technique": T_MODEL,
+        "assumptions": COMMON,
+    },
+    "C07": {
+        "rule": "families of 4-10 spellings of one name (case, width, spacing, NFC/NFD/NFKC/NFKD forms, one-character edits, "
+                "members invalid for different reasons) for all four profiles: every ordered pair is compared with (1) "
+                "equality of reference comparison forms, first operand's error first, (2) for usernames/OpaqueString "
+                "enforce(a)==enforce(b) with the library's enforce, (3) the static compare; the recorded matrix is checked for "
+                "reflexivity on accepted strings, symmetry (errors may differ only in which), transitivity over all triples. "
+                "Non-trivial = distinct pairs of different strings with Ok(true), or with exactly one side rejected.",
+        "floor_quick": 20000,
+        "technique": "runtime monitoring: reference-model oracle plus relational (equivalence) monitors over recorded result matrices",
+        "assumptions": COMMON,
+    },
+    "C08": {
+        "rule": "invariant monitor on every successful enforce of all four profiles: no code point of the result is "
+                "DISALLOWED/UNASSIGNED in the profile's own class (classified by the class under test) and enforcing the "
+                "result again gives the same string or an error. Workload: every Unicode scalar value as c and 'a c'; every "
+                "character whose lowercase/NFC/NFKC form differs, with marks and in pairs; every canonical composition pair "
+                "of 16.0.0; the generated inputs of C04-C06. Known finding F5 (85 Cherokee letters) is matched per output "
+                "code point. Non-trivial = distinct accepted (profile, input) whose output differs from the input.",
+        "floor_quick": 50000,
+        "technique": "runtime monitoring: invariant checked on every observed enforce result",
+        "assumptions": COMMON,
+    },
+    "C09": {
+        "rule": "Rules::directionality_rule of both username profiles (and the final verdict of enforce on strings that pass "
+                "the reference pre-steps) vs RFC 5893 section 2 written as six predicates over the 16.0.0 bidi classes: ALL "
+                "sequences of the 23 classes up to length 4 (quick) / 5 (thorough) with one representative per class and with "
+                "random members; EVERY code point assigned in 16.0.0 in 9 templates that separate every pair of classes the "
+                "rule can tell apart (self-checked at start-up); random RTL-heavy labels. Known finding F4 is matched by "
+                "signature (RFC accepts, library rejects, an NSM is followed by a non-NSM). Non-trivial = distinct class "
+                "sequences containing an R/AL/AN character.",
+        "floor_quick": 50000,
+        "technique": T_MODEL,
+        "assumptions": COMMON + ["only code points assigned in Unicode 16.0.0 are used (the property's quantifier)"],
+    },
+    "C10": {
+        "rule": "Rules::case_mapping_rule of UsernameCaseMapped and Nickname vs per-character char::to_lowercase: EVERY "
+                "Unicode scalar value in 7 contexts (alone, after a/A/titlecase/multi-byte prefix, before A, doubled); all "
+                "strings up to length 5 / 6 over 11 cased/uncased symbols; random strings; profile-level effect through "
+                "UsernameCaseMapped::enforce and Nickname::compare(s, lowercase(s)). Non-trivial = distinct inputs containing "
+                "a character whose lowercase mapping is not itself (bucketed by whether an uppercase letter precedes it).",
+        "floor_quick": 500000,
+        "technique": T_MODEL,
+        "assumptions": COMMON + ["oracle and library share char::to_lowercase by design (the README defines the mapping by it); the first-change/copy logic is what is under test"],
+    },
+    "C11": {
+        "rule": "Rules::width_mapping_rule of both username profiles (idempotence, and prepare's result) vs the <wide>/<narrow> "
+                "decomposition map of UnicodeData 16.0.0: EVERY Unicode scalar value in 5 contexts; all strings up to length "
+                "5 / 7 over {a, FF21, FF76, FF9E, FFE0, 2460, E9, 1F600}; random strings. Non-trivial = distinct inputs with "
+                "a mapped character (bucketed by position and multi-byte prefix) or another compatibility character that must "
+                "be kept.",
+        "floor_quick": 500000,
+        "technique": T_MODEL,
+        "assumptions": COMMON,
+    },
+    "C12": {
+        "rule": "Nickname and OpaqueString additional_mapping_rule (idempotence; effect through enforce) vs split/join and "
+                "per-character references over the Zs set of 16.0.0: ALL strings up to length 6 / 7 over {SP, A0, 2003, 3000, "
+                "a, E9, 20AC, 1F600}; each of the 17 Zs at every position of strings up to length 5; EVERY Unicode scalar "
+                "value in 4 contexts; long random strings with space runs. Non-trivial = distinct inputs with at least one "
+                "space and one multi-byte character (bucketed by the first action needed).",
+        "floor_quick": 500000,
+        "technique": T_MODEL,
+        "assumptions": COMMON,
+    },
     "C13": {
         "rule": "stabilize is run on EVERY total-or-failing function over n states (n<=5 quick, n<=6 thorough) from every "
                 "start state, with single- and multi-byte state strings and Borrowed/Owned unchanged results, plus chains, "
@@ -16,6 +159,7 @@ INFO = {
                 "contract (<=4 applications, first error wins, first f(x)=x wins). Non-trivial = distinct (function, start, "
                 "representation) whose contract needs >=2 applications.",
         "floor_quick": 1000,
+        "technique": "runtime monitoring: event log of closure calls checked against a simulation of the contract, exhaustive over small function spaces",
         "assumptions": COMMON + ["closure call log is recorded by the harness closure itself (client boundary)"],
     },
     "C14": {
@@ -24,7 +168,49 @@ INFO = {
                 "section 8 from the raw 6.3.0 files; boundary and random u32 above U+10FFFF must be DISALLOWED/UNASSIGNED. "
                 "Non-trivial = distinct code points decided by a step other than Unassigned / final default.",
         "floor_quick": 100000,
+        "technique": "runtime monitoring: exhaustive differential check of every code point against two independent oracles",
         "assumptions": COMMON + ["HasCompat oracle shares unicode-normalization with the library; the registry CSV is the primary oracle"],
+    },
+    "C15": {
+        "rule": "the two real build scripts (/repo/precis-core/build.rs, /repo/precis-profiles/build.rs) are included verbatim "
+                "and run in-process on UCD directories written by the monitor: the pinned 6.3.0 / 16.0.0 inputs, synthetic "
+                "well-formed files (random segments of singles, First/Last ranges incl. First==Last, gaps of 0/1/many, value "
+                "runs, first entry != U+0000, early or U+10FFFD end, wide/narrow/compat/canonical decompositions, property "
+                "files with single/range/split lines) and perturbations of the real files (windows, subsets, run-wise "
+                "re-assignment, folding singles into ranges and splitting ranges). Every emitted table is parsed back, "
+                "searched with the library's binary_search_by idiom over precis_core::Codepoints at every entry/truth "
+                "boundary (every code point when an anomaly is seen) and its denotation compared exactly with the ground "
+                "truth from the harness' own UCD parser; some cases are also compiled with rustc. Non-trivial = distinct "
+                "inputs with a range adjacent to a differently valued entry (or a pinned input).",
+        "floor_quick": 100,
+        "technique": "runtime monitoring: the real generators run on generated inputs, output checked against the input's ground truth",
+        "assumptions": COMMON + ["'well-formed' = sorted, unique, First/Last paired, no noncharacters listed in UnicodeData.txt"],
+    },
+    "C16": {
+        "rule": "Phase A: for generated inputs every profile operation is called as static function, fresh instance and "
+                "long-lived instance with &str / String / Cow::Borrowed / Cow::Owned arguments; contents must be identical. "
+                "Phase B: fresh single-threaded child processes replay a fixed case list in seeded permutations, compared "
+                "with a baseline from another fresh process. Phase C: fresh child processes release 16-64 threads together "
+                "onto the static functions as their very first library calls; per-thread logs are checked offline against "
+                "the baseline and the number of threads overlapping the first call is counted. The racer program is also run "
+                "under ThreadSanitizer (both tiers) and under Miri with many schedule seeds (thorough). Non-trivial = "
+                "distinct accepted-and-changed (profile, op, input) in phase A plus distinct child processes (histories / "
+                "schedules) in phases B/C and sanitizer runs.",
+        "floor_quick": 1000,
+        "technique": "runtime monitoring: differential API-form checks, offline checker over per-thread event logs from stress schedules, ThreadSanitizer and Miri",
+        "assumptions": COMMON + ["schedules are sampled, not enumerated; TSan sees only synchronisation it intercepts (std is rebuilt instrumented with -Zbuild-std)"],
+    },
+    "C17": {
+        "rule": "registry rows are rendered from a row model (single or range in 4-6 upper-case hex digits, one property or "
+                "'A or B' with 1-3 blanks, descriptions with commas/quotes/empty/non-ASCII) and must read back through "
+                "PrecisDerivedProperty::from_str and, in files with header, LF/CRLF and with/without final newline, through "
+                "CsvLineParser in file order; 16 kinds of damage (field deleted/emptied, hex digit corrupted, sign or blank "
+                "inserted, beyond U+10FFFF, broken or unknown property, 'or' without operands, wrong separator, empty line) "
+                "must give Err with the 1-based line number; reversed ranges / lower-case hex only for 'no panic'; the "
+                "registry snapshot itself row by row against the own parser. Non-trivial = distinct lines / files.",
+        "floor_quick": 100000,
+        "technique": "runtime monitoring: round-trip oracle over generated well-formed rows and negative oracle over damaged rows",
+        "assumptions": COMMON,
     },
     "C18": {
         "rule": "exhaustive window: every Single(a)/Range(a..=b), a<=b, against every cp over {0..k} U {u32::MAX-k..} U "
@@ -32,6 +218,7 @@ INFO = {
                 "then random sorted disjoint tables searched with the library's binary_search_by idiom. Non-trivial = "
                 "distinct (entry, cp) pairs and (table, probe) pairs, bucketed by relative position.",
         "floor_quick": 5000,
+        "technique": "runtime monitoring: exhaustive differential check of the comparison operators against a trichotomy model",
         "assumptions": COMMON + ["precis_core::Codepoints is the type emitted from codepoints.template that all table lookups use"],
     },
 }
